@@ -45,7 +45,7 @@ fn env_or(name: &str, default: &str) -> String {
     std::env::var(name).unwrap_or_else(|_| default.to_string())
 }
 
-fn make_env(cfg: &Cfg) -> Env {
+pub fn make_env(cfg: &Cfg) -> Env {
     let mut host_bins = Vec::new();
     for b in [Backend::Syn1, Backend::Syn2] {
         for k in [Build::Plain, Build::Hooked] {
@@ -576,6 +576,9 @@ fn cmd_replay(cfg: &Cfg, path: &Path) -> i32 {
         eprintln!("not JSON: {}", path.display());
         return 2;
     };
+    if v["kind"] == "rustc_tier" {
+        return rustc_tier::replay(cfg, &v, path);
+    }
     let (Some(backend), Some(build)) = (v["backend"].as_str().and_then(Backend::parse), v["build"].as_str().and_then(Build::parse)) else {
         eprintln!("bad replay file");
         return 2;
@@ -959,11 +962,71 @@ fn main() {
             },
         },
         "selftest" => cmd_selftest(&cfg),
+        "rustc-tier" => match rustc_tier::run(&cfg, &corpus::load(&cfg.repo)) {
+            Ok(r) => {
+                println!("{}", serde_json::to_string_pretty(&r.json).unwrap());
+                if let Some(v) = r.violation {
+                    println!("violation (rustc tier): {}", v.0);
+                    println!("VIOLATION property=C19 replay={}", v.1.display());
+                    1
+                } else {
+                    0
+                }
+            },
+            Err(e) => {
+                eprintln!("harness error (rustc tier): {}", e);
+                2
+            },
+        },
         "corpus" => {
             let c = corpus::load(&cfg.repo);
             println!("{} items from {} files", c.items.len(), c.files);
             for it in c.items.iter().take(3) {
                 println!("---- {}\n{}", it.origin, it.render());
+            }
+            0
+        },
+        "genstats" => {
+            // generator tuning aid: verdict / message histogram per workload class
+            let env = make_env(&cfg);
+            let c = corpus::load(&cfg.repo);
+            let mut rng = Rng::new(cfg.seed);
+            for class in gen::CLASSES {
+                let n = cfg.worlds.max(100);
+                let items: Vec<item::Item> = (0..n).map(|_| gen::generate(&mut rng, &c, class)).collect();
+                let texts: Vec<(u32, String)> = items.iter().enumerate().map(|(i, it)| (i as u32, it.render())).collect();
+                let mut h = HostCfg::reference();
+                h.events = (0..n as u32).map(|i| Event::Expand { tid: 0, input: i }).collect();
+                let log = run_host(&env, cfg.backend.unwrap_or(Backend::Syn1), cfg.build.unwrap_or(Build::Hooked), &texts, &h).expect("host");
+                let mut verdicts: BTreeMap<String, usize> = BTreeMap::new();
+                let mut msgs: BTreeMap<String, usize> = BTreeMap::new();
+                let mut nerr: BTreeMap<usize, usize> = BTreeMap::new();
+                let mut nimpl: BTreeMap<usize, usize> = BTreeMap::new();
+                let mut dumped = 0;
+                for o in &log.obs {
+                    if o.verdict == "PANIC" && dumped < 3 && std::env::var("SIM_DUMP_PANICS").is_ok() {
+                        dumped += 1;
+                        println!("--- PANIC {}\n{}", o.text, texts[o.input as usize].1);
+                    }
+                    *verdicts.entry(o.verdict.clone()).or_default() += 1;
+                    match o.verdict.as_str() {
+                        "PANIC" | "PARSE" => *msgs.entry(format!("{}: {}", o.verdict, &o.text[..o.text.len().min(90)])).or_default() += 1,
+                        "ERR" => {
+                            let k = o.text.matches('\u{1f}').count();
+                            *nerr.entry(k).or_default() += 1;
+                            if k == 1 {
+                                *msgs.entry(format!("ERR1: {}", &o.text[..o.text.len().min(90)])).or_default() += 1
+                            }
+                        },
+                        _ => *nimpl.entry(o.text.matches("impl ").count()).or_default() += 1,
+                    }
+                }
+                println!("== {} {:?}\n   errors/input {:?}\n   impls/input {:?}", class.tag(), verdicts, nerr, nimpl);
+                let mut v: Vec<_> = msgs.into_iter().collect();
+                v.sort_by(|a, b| b.1.cmp(&a.1));
+                for (m, k) in v.into_iter().take(12) {
+                    println!("   {:4} {}", k, m);
+                }
             }
             0
         },
